@@ -20,6 +20,17 @@ method + path template only; a route that fits no class (or has no request in th
   * caller squarely inside the class on an existing target: must not be refused for authentication /
     authorisation (business 4xx with a reason are fine);
   * listings / reads: every batch, billing project or spending row shown must be one the caller may read.
+
+History phase (both tiers): every sequence  [request r1 by caller c on batch B] ; [operation] ; [request r2 by c on B]
+and  [operation] ; [r2]  on ONE service process, for the (operation, c, B) combinations of HISTORY_COMBOS: remove / add a
+user from / to a billing project, close / reopen a billing project, delete the batch (all through the real routes, as
+developer / auth / owner), account deactivated or session revoked at the auth service (+ 11 s, the real 10 s session cache
+of gear.auth runs out).  r1 ranges over every batch-scoped request; r2 over {r1} + 5 probes in the quick tier and over every
+batch-scoped request in the thorough tier.  r2 is judged with the same oracle against the membership / ownership truth read
+from the tables AFTER the operation.  Mutable state of the service process (module globals, class attributes, closures and
+function attributes of batch.front_end / gear / web_common and the helpers they import, the app mapping, the authenticator)
+is snapshotted once, persists across the steps of a history and is put back before the next one; state the harness can
+neither prove immutable nor put back (unknown kind of module global, global created while serving) is reported (exit 2).
 """
 import json
 import re
@@ -1126,7 +1137,9 @@ def check(tier, seed, procs):
         'exhaustive': True,
         'bounds': f'{len(table)} routes x {len(callers_for(tier))} callers {callers_for(tier)} x targets (batches {list(BATCH_TARGETS)}: u1/bp, u2/bp2, '
                   f'u1/bp deleted, u2/bp, inactive-user/bp, u1/bp with update 1 staged but uncommitted, nonexistent; billing projects {list(BP_TARGETS)}) '
-                  'x 1-4 request variants per route; the thorough tier adds the browser-session flavour of every caller',
+                  'x 1-4 request variants per route; the thorough tier adds the browser-session flavour of every caller.  History phase: '
+                  f'{len(HISTORY_COMBOS)} (operation, caller, batch) combinations x (no r1 | every batch-scoped request as r1) x '
+                  f'({"r1 itself + 5 probe requests" if tier == "quick" else "every batch-scoped request"} as r2)',
         'routes_enumerated': [f'{m} {p} -> {c}' for _, m, p, _, c in table],
         'n_routes': len(table),
         'cases_per_class': dict(sorted(by_class.items())),
@@ -1176,6 +1189,13 @@ ASSUME = [
     'minisql resolves column names lazily: the broken `NOT deleted` in close_batch (no such column in job_groups) raises 1054 only when the '
     'preceding `user = %s` conjunct holds, MySQL would raise it for every caller; either way a non-owner is refused (404 here, 500 there)',
     'non-HTTP exceptions raised by a handler count as an error answer (aiohttp turns them into 500)',
+    'history phase: one World = one front-end process; module-level state is restored between histories from a snapshot taken after seeding '
+    '(dict / list / set / deque containers, instance __dict__ of batch / gear / web_common / hailtop / sortedcontainers objects, lru caches, '
+    'closure cells, function attributes, class attributes, the app mapping); prometheus metrics, asyncio / aiohttp objects are taken as benign',
+    'history phase: there is no route in the batch service that deactivates an account; deactivation / logout happen at the (fake) auth service and '
+    'r2 is sent 11 s later, i.e. the 10 s userinfo cache of gear.auth is accepted as designed',
+    'history phase: a member of a closed billing project still belongs to it (close / reopen must not change rights); an owner removed from the '
+    'billing project may still add to / commit the batch (owner filter) but no longer read / cancel / delete it (membership), as the statement says',
 ]
 
 
